@@ -225,20 +225,21 @@ impl<'a> LoweringManager<'a> {
           .map(|mir::GenenalLoopVariable { name, type_, initial_value, loop_value }| {
             let type_ = self.lower_type(type_);
             let mut loop_value = self.lower_expression(loop_value);
-            let reads_other_loop_variable = match &loop_value {
-              lir::Expression::Variable(n, t) if *n != name && loop_variable_names.contains(n) => {
-                Some(t.clone())
-              }
-              _ => None,
-            };
-            if let Some(t) = reads_other_loop_variable {
+            let reads_other_loop_variable = matches!(
+              &loop_value,
+              lir::Expression::Variable(n, _) if *n != name && loop_variable_names.contains(n)
+            );
+            if reads_other_loop_variable {
+              // The temporary has the declared (lowered) type of the loop variable it feeds: the
+              // type carried by the expression is not lowered (an enum with unboxed or i31 variants
+              // is `AnyPointer`), and a cast to it would be a checked down-cast in WebAssembly.
               let temp = self.heap.alloc_temp_str();
               saved_loop_values.push(lir::Statement::Cast {
                 name: temp,
-                type_: t.clone(),
+                type_: type_.clone(),
                 assigned_expression: loop_value,
               });
-              loop_value = lir::Expression::Variable(temp, t);
+              loop_value = lir::Expression::Variable(temp, type_.clone());
             }
             lir::GenenalLoopVariable {
               name,
